@@ -42,11 +42,12 @@ func e3SDL(col int, rel bool) string {
 	}
 	fmt.Fprintf(&b, "  name: String%s\n  age: Int%s\n  points: Int @crdt(type: pncounter)\n  flag: Boolean\n", nameDir, ageDir)
 	if rel {
-		b.WriteString("  books: [Book]\n")
+		b.WriteString("  books: [Book]\n  card: Card\n")
 	}
 	b.WriteString("}\n")
 	if rel {
-		b.WriteString("type Book {\n  title: String\n  rating: Float\n  author: User\n}\n")
+		b.WriteString("type Book {\n  title: String\n  rating: Float\n  author: User\n  cards: [Card]\n}\n")
+		b.WriteString("type Card {\n  code: String\n  holder: User @primary\n  book: Book\n}\n")
 	}
 	return b.String()
 }
@@ -328,13 +329,13 @@ func gqlErr(errs []string) error {
 	return fmt.Errorf("%s", strings.Join(errs, "; "))
 }
 
-const nCallKinds = 23
+const nCallKinds = 28
 
 func callKindName(k int) string {
 	return []string{"gqlCreate", "gqlCreateMany", "gqlUpdateByID", "gqlUpdateByFilter", "gqlDeleteByID", "gqlDeleteByFilter",
 		"gqlUpsert", "colCreate", "colCreateMany", "colUpdate", "colSave", "colDelete", "colUpdateWithFilter",
 		"colDeleteWithFilter", "createIndex", "dropIndex", "addSchema", "patchSchema", "setActiveVersion", "merge",
-		"explicitTxn", "basicImport", "txnContinue"}[mod(k, nCallKinds)]
+		"explicitTxn", "basicImport", "txnContinue", "relCreate", "relUpdateByRelatedFilter", "relDeleteByRelatedFilter", "relCreateOneToOne", "relUpdateOneToOne"}[mod(k, nCallKinds)]
 }
 
 // buildCall makes the API call for a step on a pre-state.
@@ -585,6 +586,50 @@ func buildCall(s Step, env *callEnv) *apiCall {
 			env.lastFailed = failed
 			return txn.Commit(n.reqCtx())
 		}
+	case "relCreate":
+		// mutations that read through a relation (plans with the Book collection)
+		d := pickLive(s.B)
+		c.Run = func(n *SimNode, h *handles) error {
+			author := "null"
+			if d != nil {
+				author = fmt.Sprintf("%q", d["_docID"])
+			}
+			_, errs := n.GQL(fmt.Sprintf(`mutation { create_Book(input: {title: %q, rating: %d.5, author: %s}) { _docID author { name } } }`, name+"-book", mod(s.D, 5), author))
+			return gqlErr(errs)
+		}
+	case "relUpdateByRelatedFilter":
+		c.Run = func(n *SimNode, h *handles) error {
+			_, errs := n.GQL(fmt.Sprintf(`mutation { update_Book(filter: {author: {age: {_ge: %d}}}, input: {rating: %d.25}) { _docID } }`, 20+mod(s.B, 4), mod(s.D, 7)))
+			return gqlErr(errs)
+		}
+	case "relDeleteByRelatedFilter":
+		c.Run = func(n *SimNode, h *handles) error {
+			_, errs := n.GQL(fmt.Sprintf(`mutation { delete_Book(filter: {author: {age: {_ge: %d}}}) { _docID } }`, 20+mod(s.B, 4)))
+			return gqlErr(errs)
+		}
+	case "relCreateOneToOne":
+		// the one-to-one link is checked to be free before the document is written
+		d := pickLive(s.B)
+		c.Run = func(n *SimNode, h *handles) error {
+			if d == nil {
+				return nil
+			}
+			book := "null"
+			if len(env.books) > 0 {
+				book = fmt.Sprintf("%q", env.books[mod(s.C, len(env.books))]["_docID"])
+			}
+			_, errs := n.GQL(fmt.Sprintf(`mutation { create_Card(input: {code: %q, holder: %q, book: %s}) { _docID } }`, name+"-card", d["_docID"], book))
+			return gqlErr(errs)
+		}
+	case "relUpdateOneToOne":
+		d := pickLive(s.B)
+		c.Run = func(n *SimNode, h *handles) error {
+			if d == nil {
+				return nil
+			}
+			_, errs := n.GQL(fmt.Sprintf(`mutation { update_Card(filter: {holder: {age: {_ge: %d}}}, input: {holder: %q}) { _docID } }`, 20+mod(s.C, 4), d["_docID"]))
+			return gqlErr(errs)
+		}
 	case "basicImport":
 		c.Run = func(n *SimNode, h *handles) error {
 			if env.importFile == "" {
@@ -603,7 +648,12 @@ func safeCall(c *apiCall, n *SimNode, h *handles) (err error, panicked string) {
 			panicked = fmt.Sprintf("%v @ %s", p, panicSite())
 		}
 	}()
-	return c.Run(n, h), ""
+	err = c.Run(n, h)
+	if err != nil && strings.Contains(err.Error(), "PANIC: ") {
+		// a panic inside a request (SimNode.GQL recovers it and reports it among the errors) is a panic of the call
+		return nil, err.Error()[strings.Index(err.Error(), "PANIC: ")+7:]
+	}
+	return err, ""
 }
 
 // ---- scratch directory ------------------------------------------------------------
